@@ -120,13 +120,28 @@ use std::time::{Duration, SystemTime, UNIX_EPOCH};
 /// need a consistent value users can pass to indicate "bypass cache" behavior.
 const O_DIRECT: i32 = 0x4000;
 
+/// Convert an errno-style message returned by [`crate::Fs`] into the
+/// `io::Error` kind `std::fs` reports for that errno.
+fn fs_error(msg: &'static str) -> Error {
+    let kind = match msg {
+        "No such file or directory" => ErrorKind::NotFound,
+        "File exists" => ErrorKind::AlreadyExists,
+        "Directory not empty" => ErrorKind::DirectoryNotEmpty,
+        "Is a directory" => ErrorKind::IsADirectory,
+        "Not a directory" => ErrorKind::NotADirectory,
+        "No space left on device" => ErrorKind::StorageFull,
+        _ => ErrorKind::Other,
+    };
+    Error::new(kind, msg)
+}
+
 /// Creates a new directory at the provided path.
 ///
 /// Like file creation, directory creation is not durable until the parent
 /// directory is synced.
 pub fn create_dir<P: AsRef<Path>>(path: P) -> Result<()> {
     let path = path.as_ref().to_path_buf();
-    FsContext::current(|ctx| ctx.fs.mkdir(&path, ctx.now).map_err(Error::other))
+    FsContext::current(|ctx| ctx.fs.mkdir(&path, ctx.now).map_err(fs_error))
 }
 
 /// Creates a directory and all of its parent components if they are missing.
@@ -155,7 +170,7 @@ pub fn create_dir_all<P: AsRef<Path>>(path: P) -> Result<()> {
             if ctx.fs.dir_exists(&dir) || ctx.fs.file_exists(&dir) {
                 continue;
             }
-            ctx.fs.mkdir(&dir, ctx.now).map_err(Error::other)?;
+            ctx.fs.mkdir(&dir, ctx.now).map_err(fs_error)?;
         }
         Ok(())
     })
@@ -164,7 +179,7 @@ pub fn create_dir_all<P: AsRef<Path>>(path: P) -> Result<()> {
 /// Removes an empty directory.
 pub fn remove_dir<P: AsRef<Path>>(path: P) -> Result<()> {
     let path = path.as_ref().to_path_buf();
-    FsContext::current(|ctx| ctx.fs.rmdir(&path).map_err(Error::other))
+    FsContext::current(|ctx| ctx.fs.rmdir(&path).map_err(fs_error))
 }
 
 /// Syncs a directory, making its entries durable.
@@ -232,7 +247,7 @@ pub fn remove_dir<P: AsRef<Path>>(path: P) -> Result<()> {
 /// ```
 pub fn sync_dir<P: AsRef<Path>>(path: P) -> Result<()> {
     let path = path.as_ref().to_path_buf();
-    FsContext::current(|ctx| ctx.fs.sync_dir(&path, ctx.now).map_err(Error::other))
+    FsContext::current(|ctx| ctx.fs.sync_dir(&path, ctx.now).map_err(fs_error))
 }
 
 /// Removes a file from the filesystem.
@@ -254,7 +269,7 @@ pub fn remove_file<P: AsRef<Path>>(path: P) -> Result<()> {
 pub fn rename<P: AsRef<Path>, Q: AsRef<Path>>(from: P, to: Q) -> Result<()> {
     let from = from.as_ref().to_path_buf();
     let to = to.as_ref().to_path_buf();
-    FsContext::current(|ctx| ctx.fs.rename(&from, &to).map_err(Error::other))
+    FsContext::current(|ctx| ctx.fs.rename(&from, &to).map_err(fs_error))
 }
 
 /// Returns `true` if the path points at an existing entity.
@@ -658,7 +673,7 @@ impl File {
                 .ok_or_else(|| Error::new(ErrorKind::NotFound, "file handle not found"))?
                 .clone();
 
-            ctx.fs.sync_file(&path).map_err(Error::other)
+            ctx.fs.sync_file(&path).map_err(fs_error)
         })
     }
 
@@ -680,7 +695,7 @@ impl File {
                 .ok_or_else(|| Error::new(ErrorKind::NotFound, "file handle not found"))?
                 .clone();
 
-            ctx.fs.sync_file_data(&path).map_err(Error::other)
+            ctx.fs.sync_file_data(&path).map_err(fs_error)
         })
     }
 
@@ -851,7 +866,7 @@ impl File {
             let write_end = offset + buf.len() as u64;
             let additional = write_end.saturating_sub(current_len);
             if additional > 0 {
-                ctx.fs.check_space(additional).map_err(Error::other)?;
+                ctx.fs.check_space(additional).map_err(fs_error)?;
             }
 
             ctx.fs.write_file(&path, offset, buf, ctx.now);
@@ -1390,7 +1405,7 @@ pub fn set_permissions<P: AsRef<Path>>(path: P, perm: Permissions) -> Result<()>
     FsContext::current(|ctx| {
         ctx.fs
             .set_permissions(&path, perm.mode, ctx.now)
-            .map_err(Error::other)
+            .map_err(fs_error)
     })
 }
 
@@ -1403,7 +1418,7 @@ pub fn symlink<P: AsRef<Path>, Q: AsRef<Path>>(original: P, link: Q) -> Result<(
     FsContext::current(|ctx| {
         ctx.fs
             .create_symlink(&link, &original, ctx.now)
-            .map_err(Error::other)
+            .map_err(fs_error)
     })
 }
 
@@ -1504,7 +1519,7 @@ pub fn hard_link<P: AsRef<Path>, Q: AsRef<Path>>(original: P, link: Q) -> Result
     FsContext::current(|ctx| {
         ctx.fs
             .create_hard_link(&link, &original, ctx.now)
-            .map_err(Error::other)
+            .map_err(fs_error)
     })
 }
 
@@ -1555,7 +1570,7 @@ fn create_dir_with_mode<P: AsRef<Path>>(path: P, mode: u32) -> Result<()> {
     FsContext::current(|ctx| {
         ctx.fs
             .mkdir_with_mode(&path, ctx.now, mode)
-            .map_err(Error::other)
+            .map_err(fs_error)
     })
 }
 
@@ -1586,7 +1601,7 @@ fn create_dir_all_with_mode<P: AsRef<Path>>(path: P, mode: u32) -> Result<()> {
             }
             ctx.fs
                 .mkdir_with_mode(&dir, ctx.now, mode)
-                .map_err(Error::other)?;
+                .map_err(fs_error)?;
         }
         Ok(())
     })
@@ -1743,7 +1758,7 @@ pub fn remove_dir_all<P: AsRef<Path>>(path: P) -> Result<()> {
         remove_dir_contents_recursive(ctx.fs, &path)?;
 
         // Finally remove the directory itself
-        ctx.fs.rmdir(&path).map_err(Error::other)
+        ctx.fs.rmdir(&path).map_err(fs_error)
     })
 }
 
@@ -1757,10 +1772,10 @@ fn remove_dir_contents_recursive(fs: &mut crate::Fs, path: &Path) -> Result<()> 
             // Recursively remove subdirectory contents
             remove_dir_contents_recursive(fs, &entry_path)?;
             // Remove the now-empty subdirectory
-            fs.rmdir(&entry_path).map_err(Error::other)?;
+            fs.rmdir(&entry_path).map_err(fs_error)?;
         } else if fs.file_exists(&entry_path) || fs.symlink_exists(&entry_path) {
             // Remove file or symlink
-            fs.unlink(&entry_path).map_err(Error::other)?;
+            fs.unlink(&entry_path).map_err(fs_error)?;
         }
     }
 
